@@ -173,6 +173,43 @@ func HarnessC12MaxElapsed() {
 }
 
 
+// HarnessC12MaxElapsedTimed: "gives up early when MaxElapsedTime passes", against the clock: under the timed
+// semantics (computation takes no time, timers fire when due) no attempt starts later than MaxElapsedTime after
+// the first one, whatever the back-off interval is; without the timed semantics only the untimed claims are checked.
+func HarnessC12MaxElapsedTimed() {
+	models.RandConst = true
+	initial := 10 * time.Millisecond
+	if vrt.Bool("long.backoff") {
+		initial = 2 * time.Second // the very first wait crosses the deadline
+	}
+	maxElapsed := 25 * time.Millisecond
+	r := Retry{MaxRetries: vrt.Int("maxretries", 1, 4), InitialInterval: initial, MaxInterval: time.Minute, Multiplier: 2, MaxElapsedTime: maxElapsed}
+	fails := vrt.Int("fails", 1, 5)
+	msg := message.NewMessage("m", nil)
+	calls := 0
+	t0 := time.Now()
+	h := func(m *message.Message) ([]*message.Message, error) {
+		calls++
+		if vrt.Timed() {
+			vrt.Assert(time.Since(t0) <= maxElapsed, "no attempt starts after MaxElapsedTime has passed")
+		}
+		if calls <= fails {
+			return nil, errScripted
+		}
+		return nil, nil
+	}
+	_, err := r.Middleware(h)(msg)
+	vrt.Assert(err == nil || err == errScripted, "the handler's error is kept")
+	vrt.Assert(err != nil || calls == fails+1, "success only if an attempt succeeded")
+	if vrt.Timed() {
+		vrt.Assert(time.Since(t0) <= maxElapsed, "Retry returns when MaxElapsedTime passes at the latest")
+		if initial > maxElapsed {
+			vrt.Assert(calls == 1, "a back-off longer than the remaining time means no further attempt")
+		}
+	}
+	vrt.Assert(msg.Context().Err() == nil, "Retry leaves the message context usable")
+}
+
 // HarnessC12Concurrent: two messages retried concurrently through the same Retry middleware instance do not
 // disturb each other's back-off: every pause is still at least the configured interval for that message.
 func HarnessC12Concurrent() {
